@@ -1,7 +1,7 @@
 """C13 -- object processors run once each, bottom-up, on a fully linked model.
 
 (M)    spec/LoaderProc.tla model-checked over every containment shape of the carrier grammar
-       with <= 3 (quick) / 4 (thorough) objects in 1-2 files x processor tables x replacement
+       with <= 3 objects in 1-2 files x processor tables (thorough: all of them) x replacement
        subsets: C13_Order, C13_OwnFirst, C13_Once, C13_Replaced in every state, and the
        canonical walk (the oracle of the next pass) is a behaviour of the machine;
 (S->I) quick: the scenarios of that very TLC run (shape x processor table x replacement
@@ -176,9 +176,9 @@ def run(rep):
         rep.exhaustive = len(plan) == len(scns)
         rep.bounds["scenarios"] = dict(enumerated=len(scns), replayed=len(plan), max_objs=3,
                                        tables="all tables for <= 2 objects; for 3 objects every replacement subset "
-                                              "with all rules registered, every table without one rule, the empty table")
+                                              "with all rules registered, every table without one rule or with a single rule, the empty table")
     else:
-        _mc(rep, 4, 3, emit=False)
+        _mc(rep, 3, 3, emit=False)      # every table; 4 objects x tables x interleavings is > 10^7 states
         r, shapes = D.emit_shapes(tlc, 5)
         rep.add_mc("MC_LoaderProc_Emit[shapes]", r, ["(scenario emission)"])
         total = len(shapes)
@@ -287,10 +287,10 @@ META = dict(
                 "shape of that universe is rendered and loaded by the real textX and compared with TLC's "
                 "evaluation; call logs of bigger random loads are validated by TLC as traces of the machine."),
     level_note=("Fixed carrier grammar (abstract attribute types Elem and Def, recursion through Pkg, single and "
-                "list containment, references, 1-3 files); bounded shapes (<= 3/4 objects in the TLC run, <= 5 "
+                "list containment, references, 1-3 files); bounded shapes (<= 3 objects in the TLC run, <= 5 "
                 "enumerated for replay in the thorough tier, <= 14 random); object identity by containment path; "
-                "processor tables exhaustive for <= 2/3 objects, otherwise every replacement subset with all rules "
-                "registered, every table leaving out one rule, and the empty table; seeded samples where the "
-                "universe exceeds the budget."),
+                "processor tables exhaustive for <= 2 (quick) / 3 (thorough) objects, otherwise every replacement "
+                "subset with all rules registered, every table leaving out one rule or registering a single rule, and "
+                "the empty table; seeded samples where the universe exceeds the budget."),
     technique="TLC model checking of LoaderProc.tla + TLC-enumerated scenario replay with TLC oracle + TLC trace validation",
 )
